@@ -27,6 +27,7 @@ RULE = (
     "(genuine info > 0) for a generated k; the run must raise or still satisfy the residual oracle. "
     "Non-trivial = >= 3 steps with pairwise different time increments and max mesh ratio*diffusivity > 10. "
     "Distinct = hash of the case record."
+    " One case in nine runs on a copied / pickled fluid or a deep-copied reservoir; one single-phase case in six on a subclass overriding alpha_scaled (the residual is formed with the object's own hook); one case in forty on a grid of 1500..4500 nodes with 2..5 steps."
 )
 ASSUMPTIONS = [
     "the diffusivity of the step is the library's own reservoir.alpha_scaled evaluated at min(previous level, m_i) (the lookup itself is C09's subject)",
@@ -54,7 +55,7 @@ EPS = float(np.finfo(float).eps)
 def strategy(tier):
     kinds = ("uniform", "quadratic", "geometric", "geometric", "random", "random", "big", "repeat")
     classes = ("single", "single", "single", "single", "single", "ideal", "ideal", "twophase")
-    base = flowcase.sim_case(nx_max=400, max_steps=120, time_kinds=kinds, classes=classes) if tier == "quick" else flowcase.sim_case(nx_max=400, max_steps=800, table_nmax=400, time_kinds=kinds, classes=classes)
+    base = flowcase.sim_case(nx_max=400, max_steps=120, time_kinds=kinds, classes=classes, subclasses=True, big_nx=True) if tier == "quick" else flowcase.sim_case(nx_max=400, max_steps=800, table_nmax=400, time_kinds=kinds, classes=classes, subclasses=True, big_nx=True)
     return st.tuples(base, st.integers(0, 3), st.floats(0.0, 1.0)).map(lambda t: {**t[0], "fault_roll": t[1], "fault_pos": t[2]})
 
 
